@@ -60,6 +60,9 @@ def leaves_single(x=X):
         ("cmp", "ge", ("c", x, "get_p", ()), ("c", A(x, "ref"), "get_q", ())),
         ("cmp", "eq", ("i", A(x, "t"), 0), p), ("cmp", "ne", ("i", A(x, "s"), 0), L("y")),
         ("pf", "p_eq", (x, L(2))), ("pc", "PEq", (x, L(2))),
+        # method calls with keyword arguments (the defaults lo=1, hi=3 would give a different answer)
+        ("t", ("ck", x, "p_between", (), (("lo", 2),))), ("t", ("ck", x, "p_between", (), (("hi", 1),))),
+        ("t", ("ck", x, "p_between", (2,), (("hi", 2),))), ("t", ("ck", A(x, "ref"), "p_between", (), (("lo", 2), ("hi", 2)))),
         # non-boolean values in condition position are read by their truthiness (all truthy here, so their negation is
         # false for every object)
         ("t", A(x, "t")), ("t", A(x, "s")), ("t", p), ("t", ("i", A(x, "d"), "k")), ("t", ("c", x, "get_p", ())),
